@@ -76,6 +76,14 @@ func (g *Gen) node(op string, in []string, nin []int, kids ...*R) *R {
 }
 
 func (g *Gen) maybeArg(r *R) *R {
+	switch r.Op {
+	case "new", "wrap", "withmessage", "hint", "detail":
+		if g.rng.Intn(8) == 0 {
+			// the format-style constructor without arguments: the string is a format all the same
+			r.F = true
+			return r
+		}
+	}
 	if g.rng.Intn(3) == 0 {
 		a := g.word()
 		r.Arg = &a
@@ -331,6 +339,7 @@ func (g *Gen) Clone(r *R) *R {
 	if r.Op == "sentinel" {
 		c.ID = r.ID
 	}
+	c.F = r.F
 	if r.Arg != nil {
 		a := *r.Arg
 		c.Arg = &a
